@@ -222,7 +222,10 @@ func (g *ggen) typ() reflect.Type {
 			// the parameters of the top-level function, so that no such value is ever produced, cached
 			// and printed element by element by String()
 			elem := []reflect.Type{reflect.TypeOf(struct{}{}), reflect.TypeOf([0]int{}), reflect.TypeOf([0]*V0{})}[g.r.Intn(3)]
-			return reflect.ArrayOf([]int{1 << 62, 1 << 40, 1<<31 + 1}[g.r.Intn(3)], elem)
+			// lengths around every place where length*size wraps: powers of two, three times a power of two
+			// (the product wraps to a non-zero value), all-ones
+			lens := []int{1 << 62, 1 << 40, 1<<31 + 1, 3 << 60, 5 << 59, 1<<63 - 1, 3 << 61, 1<<62 + 1}
+			return reflect.ArrayOf(lens[g.r.Intn(len(lens))], elem)
 		}
 		return reflect.ArrayOf(g.r.Intn(3), g.typ())
 	case x < 65:
